@@ -29,6 +29,7 @@ RULE = (
     'zero lengths / integral floats where only a number / integer is allowed (listed finding). Non-trivial: the '
     'value is valid in one context or spelling class and a near miss exists, or has >= 2 components; distinct by (name, '
     'canonical value).'
+    ' Names that only look like a known one after Unicode case folding (KELVIN SIGN for k, LONG S for s) must be unknown.'
 )
 ASSUMPTIONS = [
     'the reference table of CSS 2.1 keyword lists / value types is hand-written from the CSS 2.1 property index',
